@@ -19,6 +19,16 @@ use serde_json::{json, Value};
 
 pub struct C07;
 
+/// finite voltages only: machines are compared with ==, and NaN != NaN (non-finite inputs are C13/C14's workload)
+fn finite_bits(rng: &mut Rng) -> u32 {
+    loop {
+        let b = random_f32_bits(rng);
+        if f32::from_bits(b).is_finite() {
+            return b;
+        }
+    }
+}
+
 #[derive(Clone, Debug, PartialEq, Serialize, Deserialize)]
 pub enum Op {
     Load(Image),
@@ -289,13 +299,14 @@ fn reset_faults(pre: &Machine, scn: &Scn, known: &Known, at: (usize, u32), ctx: 
         if c.stacksize() != want_stack {
             return Err(v("load-limits", at, format!("load: stack size {:?}, program states {:?}", c.stacksize(), want_stack)));
         }
-        if c.programsize() != Programsize::Size(scn.follow.effective_limit()) {
-            return Err(v("load-limits", at, format!("load: program size {:?}, program states {}", c.programsize(), scn.follow.effective_limit())));
+        let want_limit = if scn.follow.keep_limit { pre.programsize() } else { Programsize::Size(scn.follow.effective_limit()) };
+        if c.programsize() != want_limit {
+            return Err(v("load-limits", at, format!("load: program size {:?}, the program states {:?}{}", c.programsize(), want_limit, if scn.follow.keep_limit { " (NOSET: keep)" } else { "" })));
         }
     }
     // cycle-for-cycle like a newly created machine
     let mut fresh = Machine::new_with_program(MachineConfig::default(), scn.follow.bytecode());
-    if matches!(scn.follow.stack, 0 | 16 | 32 | 48 | 64) {
+    if matches!(scn.follow.stack, 0 | 16 | 32 | 48 | 64) && !scn.follow.keep_limit {
         fresh.set_step_mode(c.step_mode());
         for (i, val) in scn.follow_inputs.iter().enumerate() {
             let s = Stim::InReg(i as u8, *val);
@@ -457,14 +468,14 @@ fn program(rng: &mut Rng) -> Image {
             (gen::hazard_program(rng, o), gen::pick_stack(rng))
         }
     };
-    Image { bytes, stack: if rng.chance(1, 8) { 99 } else { stack }, limit: if rng.bool() { Some(0xFF) } else { None } }
+    Image { bytes, stack: if rng.chance(1, 8) { 99 } else { stack }, limit: if rng.bool() { Some(0xFF) } else { None }, keep_limit: rng.chance(1, 8) }
 }
 
 fn follow_up(rng: &mut Rng) -> Image {
     // uses only RAM and the FC-FF registers
     let o = HazardOpts { len: 6 + rng.usize(40), wild: false, run_into_io: false, with_ei: false, irq: None };
     let bytes = gen::hazard_program(rng, o);
-    Image { bytes, stack: *rng.pick(&[0u8, 16, 32, 48, 64, 16, 99]), limit: if rng.bool() { Some(0xFF) } else { None } }
+    Image { bytes, stack: *rng.pick(&[0u8, 16, 32, 48, 64, 16, 99]), limit: if rng.bool() { Some(0xFF) } else { None }, keep_limit: rng.chance(1, 6) }
 }
 
 impl Check for C07 {
@@ -504,7 +515,7 @@ impl Check for C07 {
             events.sort_by_key(|e| e.0);
             return Scn {
                 ops: vec![],
-                follow: Image { bytes: vec![], stack: 16, limit: None },
+                follow: Image { bytes: vec![], stack: 16, limit: None, keep_limit: false },
                 follow_inputs: [0; 4],
                 only: None,
                 lockstep: Some(crate::engine::SeqScn { setup, events, max_edges }),
@@ -529,7 +540,7 @@ impl Check for C07 {
                 12 => Op::S(Stim::Di(rng.u8())),
                 13 => Op::S(Stim::Jumper(1 + rng.below(2) as u8, rng.bool())),
                 14 => Op::S(Stim::Uio(1 + rng.below(3) as u8, rng.bool())),
-                15 => Op::S(Stim::Volt(rng.below(3) as u8, if rng.bool() { (rng.below(520) as f32 / 100.0).to_bits() } else { random_f32_bits(rng) })),
+                15 => Op::S(Stim::Volt(rng.below(3) as u8, if rng.bool() { (rng.below(520) as f32 / 100.0).to_bits() } else { finite_bits(rng) })),
                 16 | 17 => {
                     let a = *rng.pick(&[0xF0u8, 0xF1, 0xF2, 0xF3, 0xF9, 0xFA, 0xFB, 0xFC, 0xFD, 0xFE, 0xFF]);
                     Op::S(Stim::BusWrite(a, rng.u8()))
